@@ -276,6 +276,9 @@ def absorb_cases(rep, results, family, known_matcher=None, nontrivial_tags=None)
             if h not in seen and nontriv:
                 seen.add(h)
             for v in c.get("violations") or []:
+                mm = re.match(r"(C\d\d):", v["clause"])
+                if mm and mm.group(1) != rep.pid:
+                    continue      # another property's clause: that property's own check reports it
                 kf = known_matcher(c, v) if known_matcher else None
                 if kf:
                     if kf not in rep.known:
